@@ -338,7 +338,7 @@ func u64p(v uint64) *uint64 { return &v }
 func (d *c17Daemon) step(id string, r *rand.Rand) bool {
 	c := d.c
 	// incl. siblings that differ only in a component's type (keyword 32=a next to generic a)
-	names := []string{"/r/a", "/r/a/b", "/r/c", "/f/x", "/f/x/y", "/r/32=a", "/r/a/32=b", "/f/32=x"}
+	names := []string{"/r/a", "/r/a/b", "/r/a/b/c", "/r/c", "/f/x", "/f/x/y", "/r/32=a", "/r/a/32=b", "/f/32=x"} // three nested levels under /r
 	pick := func(pfx string) enc.Name {
 		for {
 			s := names[r.Intn(len(names))]
@@ -898,7 +898,7 @@ func (d *c17Daemon) checkTables(id, after string) bool {
 	for k, v := range wantR {
 		wantAll[k] = v
 	}
-	for _, ps := range []string{"/r/a", "/r/a/b", "/r/a/b/q", "/r/a/q", "/r/c", "/r/c/q/q", "/f/x", "/f/x/y", "/f/x/y/q", "/f/x/q", "/r", "/f", "/r/32=a", "/r/32=a/q", "/r/a/32=b", "/r/a/32=b/q", "/f/32=x", "/f/32=x/y"} {
+	for _, ps := range []string{"/r/a", "/r/a/b", "/r/a/b/q", "/r/a/q", "/r/c", "/r/c/q/q", "/f/x", "/f/x/y", "/f/x/y/q", "/f/x/q", "/r", "/f", "/r/32=a", "/r/32=a/q", "/r/a/32=b", "/r/a/32=b/q", "/f/32=x", "/f/32=x/y", "/r/a/b/c", "/r/a/b/c/q"} {
 		pn, _ := enc.NameFromStr(ps)
 		want := ""
 		for l := len(pn); l >= 0; l-- {
